@@ -4,7 +4,9 @@
 // loops.  Decided, for every (n, i, k): no underflow / overflow / division by zero / truncating cast, the loops
 // terminate, `checked_binomial` is n-choose-k exactly when that fits a usize (None exactly when it does not), the
 // natives answer "i too large" exactly when i is not below the number of combinations, and the indices handed to
-// the result are k in number, below n, and strictly increasing (non-decreasing with replacement).
+// the result are k in number, below n, and strictly increasing (non-decreasing with replacement).  For C10: every
+// iteration of an unranking loop draws one permit of the call's search budget first (ghost iteration counter ==
+// permits drawn), so under a search limit L a call ends within L iterations or in the MaximumSearch violation.
 #![allow(unused_imports, dead_code, unused_variables, unused_mut)]
 use vstd::prelude::*;
 use std::rc::Rc;
@@ -30,7 +32,27 @@ pub fn binomial(n: usize, k: usize) -> (r: usize)
 
 #[verifier::external_body]
 pub fn managed_stub() -> (r: Out) ensures r == Out::Empty { unimplemented!() }
-pub struct Rt;
+/// the search budget of one native call (`RuntimeLimits::search_iter`, under contract in V-budget): with a limit L
+/// exactly L permits, then exactly one Err(MaximumSearch), then the end; without a limit endless permits
+pub struct SearchIt { pub limit: Ghost<Option<nat>>, pub drawn: Ghost<nat>, pub failed: Ghost<bool> }
+impl SearchIt {
+    #[verifier::external_body]
+    pub fn next(&mut self) -> (r: Option<RuntimeResult<()>>)
+        ensures
+            final(self).limit@ == old(self).limit@, final(self).drawn@ == old(self).drawn@ + 1,
+            !old(self).failed@ ==> (r matches Some(x) && match old(self).limit@ {
+                Some(l) => (x is Ok <==> old(self).drawn@ < l),
+                None => x is Ok,
+            }),
+            final(self).failed@ == (old(self).failed@ || !(r matches Some(Ok(_)))),
+    { unimplemented!() }
+}
+pub struct Limits { pub search: Ghost<Option<nat>> }
+impl Limits {
+    #[verifier::external_body]
+    pub fn search_iter(&self) -> (r: SearchIt) ensures r.limit@ == self.search@, r.drawn@ == 0, !r.failed@ { unimplemented!() }
+}
+pub struct Rt { pub limits: Limits }
 impl Rt {
     #[verifier::external_body]
     pub fn clone(&self) -> (r: Rt) { unimplemented!() }
